@@ -3,6 +3,8 @@ use std::collections::HashMap;
 use crate::ast::Definition;
 use crate::file_definition::{FileID, FileLibrary};
 use crate::function_data::{FunctionData, FunctionInfo};
+use crate::report::{Report, ReportCollection};
+use crate::report_code::ReportCode;
 use crate::template_data::{TemplateData, TemplateInfo};
 
 type Contents = HashMap<FileID, Vec<Definition>>;
@@ -11,16 +13,42 @@ pub struct TemplateLibrary {
     pub functions: FunctionInfo,
     pub templates: TemplateInfo,
     pub file_library: FileLibrary,
+    /// Reports for definitions that were dropped because the name was already used.
+    pub reports: ReportCollection,
 }
 
 impl TemplateLibrary {
     pub fn new(library_contents: Contents, file_library: FileLibrary) -> TemplateLibrary {
         let mut functions = HashMap::new();
         let mut templates = HashMap::new();
+        let mut reports = ReportCollection::new();
+
+        // Visit the files in a fixed order so that the result does not depend
+        // on the iteration order of the hash map.
+        let mut library_contents: Vec<_> = library_contents.into_iter().collect();
+        library_contents.sort_by_key(|(file_id, _)| *file_id);
 
         let mut elem_id = 0;
         for (file_id, file_contents) in library_contents {
             for definition in file_contents {
+                let (name, meta) = match &definition {
+                    Definition::Function { name, meta, .. }
+                    | Definition::Template { name, meta, .. } => (name, meta),
+                };
+                if functions.contains_key(name) || templates.contains_key(name) {
+                    // Keep the first definition and report the duplicate.
+                    let mut report = Report::error(
+                        String::from("Duplicated function or template."),
+                        ReportCode::SameSymbolDeclaredTwice,
+                    );
+                    report.add_primary(
+                        meta.file_location(),
+                        file_id,
+                        format!("The name `{name}` is already used."),
+                    );
+                    reports.push(report);
+                    continue;
+                }
                 match definition {
                     Definition::Function { name, args, arg_location, body, .. } => {
                         functions.insert(
@@ -63,7 +91,7 @@ impl TemplateLibrary {
                 }
             }
         }
-        TemplateLibrary { functions, templates, file_library }
+        TemplateLibrary { functions, templates, file_library, reports }
     }
     // Template methods.
     pub fn contains_template(&self, template_name: &str) -> bool {
